@@ -130,6 +130,9 @@ func runCheck(prop, tier string, seed int) (exit int) {
 		ops := []int{-1}
 		if fc.Harness != "" && fc.HArgs["op"] != "" {
 			ops = opList(os.Getenv("SNESVC_OPS"))
+			if fc.Ops != "" {
+				ops = opList(fc.Ops)
+			}
 		}
 		for _, op := range ops {
 			op := op
